@@ -48,6 +48,20 @@ pub fn corpus() -> Vec<(&'static str, IncCfg, Vec<Op>)> {
                         honest(&c, 3, asset, 50_000, None, None)]);
         v.push(("fully_claimed_flow_closed", c.clone(), ops));
     }
+    // the same address in two roles: the factory's fee collector (a treasury account) opens flows itself, paid out of the creation fees it
+    // received for three earlier flows - a flow in the fee denom and one in another native denom; every fee still reaches the collector,
+    // the contract holds exactly what its flows hold
+    let c = cfg_base(10, 0);
+    v.push(("fee_collector_opens_flows", c.clone(), vec![
+        honest(&c, 1, 1, 40_000, None, None),
+        honest(&c, 2, 0, 30_000, None, None),
+        honest(&c, 3, 11, 20_000, None, None),
+        Op::OpenFlow { sender: COLLECTOR_ID, funds: vec![(0, 2_500)], allow: vec![], start: None, end: None, asset: 0, amount: 2_500, label: None },
+        Op::NewEpoch, Op::Snapshot,
+        Op::CloseFlow { sender: COLLECTOR_ID, ident: Ident::Id(4) },
+        Op::CloseFlow { sender: 2, ident: Ident::Id(2) },
+        Op::CloseFlow { sender: 1, ident: Ident::Id(1) },
+    ]));
     // a single claim spanning more than EPOCH_CLAIM_CAP (100) epochs: the capped claim must still book what it pays, the rest is
     // claimed by the next call, and closing refunds exactly funded - claimed
     let c = cfg_base(10, 0);
